@@ -39,6 +39,7 @@ import (
 
 	"verif/gen"
 	"verif/model"
+	"verif/scen/bindhist"
 	"verif/sim"
 )
 
@@ -112,6 +113,8 @@ type world struct {
 	encP     []byte // dag-json encoding of the bound struct's representation
 	profile  int
 	byt      datamodel.Node
+	vocab    []schema.TypedNode
+	sels     []selector.Selector
 	sbyt     datamodel.Node
 	backend  string
 	cleanup  func()
@@ -234,6 +237,22 @@ func buildWorld(t *sim.Tape) *world {
 	w.lp = cidlink.LinkPrototype{Prefix: gen.LinkFromBin(cids[0]).(cidlink.Link).Prefix()}
 	w.lp.Codec = 0x71
 	w.cfg = &traversal.Config{LinkSystem: w.lsys, LinkVisitOnlyOnce: t.Bool("cfg.visitonce")}
+	for i, n := 0, 1+t.Choice(4, "vocab.n"); i < n; i++ {
+		func() {
+			defer func() { recover() }()
+			_, tn := bindhist.Sample(t.Choice(bindhist.VocabSize(), "vocab.type"), t.Choice(32, "vocab.val"))
+			w.vocab = append(w.vocab, tn)
+		}()
+	}
+	gen.FieldHints = nil
+	if w.g.Root.K == model.Map {
+		gen.FieldHints = w.g.Root.Keys
+	}
+	for i, n := 0, 1+t.Choice(3, "sels.n"); i < n; i++ {
+		if cs, err := gen.Selector(t, ssb, 0, false, false).Selector(); err == nil {
+			w.sels = append(w.sels, cs)
+		}
+	}
 	w.byt = basicnode.NewBytes([]byte("shared plain bytes node, long enough for subsets"))
 	w.sbyt = basicnode.NewBytesFromReader(bytes.NewReader([]byte("shared stream-backed bytes node: every reader sees all of it, from the start")))
 	if w.profile == 0 {
@@ -256,11 +275,11 @@ func avHash(n datamodel.Node) string {
 	return fmt.Sprintf("%x", v.Hash())
 }
 
-const nOps = 34
+const nOps = 36
 
 var opNames = []string{"read-basicnode", "read-bindnode-type", "read-bindnode-repr", "deepequal", "copy", "encode-dagcbor", "encode-dagjson", "encode-bindnode-repr",
 	"computelink", "load", "loadraw", "walkadv", "walkmatching", "get-path", "build-from-shared-prototype", "wrap-with-shared-type", "wrap-inferred", "registry-lookup",
-	"print", "read-gendemo", "build-gendemo", "compile-selector", "typesystem-read", "prototype-inferred", "encode-to-failing-writer", "encode-after-failed-encode", "decode-dagcbor", "decode-dagjson-into-shared-prototype", "focused-transform-of-shared-node", "walk-transform-of-shared-node", "loadplusraw", "fill", "walk-stream-bytes-subset", "read-stream-backed-bytes"}
+	"print", "read-gendemo", "build-gendemo", "compile-selector", "typesystem-read", "prototype-inferred", "encode-to-failing-writer", "encode-after-failed-encode", "decode-dagcbor", "decode-dagjson-into-shared-prototype", "focused-transform-of-shared-node", "walk-transform-of-shared-node", "loadplusraw", "fill", "walk-stream-bytes-subset", "read-stream-backed-bytes", "read-vocabulary-node", "walk-with-seeded-selector"}
 
 // doOp performs one read-only operation on the shared world and returns a digest of its result.
 func (w *world) doOp(op, arg int) string {
@@ -486,6 +505,30 @@ func (w *world) doOp(op, arg int) string {
 			out += fmt.Sprintf(" %x", sim.HashString(string(got)))
 		}
 		return out
+	case 34:
+		// shared reflection-bound nodes of C19's vocabulary shapes: both views, and an encode
+		if len(w.vocab) == 0 {
+			return "none"
+		}
+		tn := w.vocab[arg%len(w.vocab)]
+		var buf bytes.Buffer
+		err := dagcbor.Encode(tn.Representation(), &buf)
+		return avHash(tn) + avHash(tn.Representation()) + fmt.Sprintf(" %x %v", sim.HashString(buf.String()), err != nil)
+	case 35:
+		// a matching walk with one of the shared, seeded selectors (conditions, ranges, unions, fields, subsets)
+		if len(w.sels) == 0 {
+			return "none"
+		}
+		var sb strings.Builder
+		root := w.g.RootNode
+		if w.profile != 0 {
+			root = w.n1
+		}
+		err := traversal.Progress{Cfg: w.cfg}.WalkMatching(root, w.sels[arg%len(w.sels)], func(p traversal.Progress, n datamodel.Node) error {
+			sb.WriteString(p.Path.String() + "=" + avHash(n) + ";")
+			return nil
+		})
+		return fmt.Sprintf("%x %v", sim.HashString(sb.String()), err != nil)
 	case 24, 25:
 		// encode a shared map-bearing node into a writer that fails at its arg-th write, then (25) encode again properly
 		fw := &failingWriter{at: arg}
